@@ -73,7 +73,8 @@ def run_store_jobs(d, jobs, tier):
     def work(j):
         cname, hf, repl, loops = j
         return j, cbmc_job(d, cname, hf, 'h_' + cname, enforce=cname, replace=repl, loop_contracts=loops, smt=True, timeout=tmo,
-                           solvers=['z3new', 'z3'], canary_timeout=90, split=True, split_workers=8)
+                           solvers=['z3new', 'z3'], canary_timeout=90, split=True, split_workers=8,
+                           small_scope={'KMAX': 6, 'HMAX': 8, 'VMAXV': 8, '_smt': 1})
 
     with ThreadPoolExecutor(max_workers=3) as ex:
         return list(ex.map(work, jobs))
@@ -112,7 +113,8 @@ def run(tier, seed):
     import ctorcheck
     c_dis, c_per, c_samples, c_not = ctorcheck.run_ctor_checks(rep, d, tier, os.environ.get('VF_ONLY'))
     n_dis += c_dis
-    cov = {'obligations': n_dis + len(rep.violations) + len(rep.undecided) + len(rep.known_hits), 'discharged': n_dis,
+    cov = {'obligations': n_dis + len(rep.violations) + len(rep.undecided), 'discharged': n_dis,   # obligations that fail as recorded known findings are counted under known_finding_obligations only
+          
            'checker_cmd': results[0][1].cmd if results else 'n/a', 'trusted_base': TRUSTED,
            'functions_under_contract': [j[0] for j, r in results] + [p['function'] for p in c_per],
            'functions_not_under_contract': not_under + c_not,
